@@ -27,6 +27,9 @@ func (c *clipper64) ExecutePolyTree64(clipType ClipType, fillRule FillRule, poly
 	c.buildTree(polytree.PolyPathBase, &oPaths)
 
 	c.clearSolutionOnly()
+	for _, oPath := range oPaths {
+		*openPaths = append(*openPaths, Path64ToPathD(oPath))
+	}
 	return c.succeeded
 }
 
